@@ -5,6 +5,56 @@ use std::{
     path::{Path, PathBuf},
 };
 
+/// Verification hook (only with `--cfg fuellabs_sway_verif`): per-thread step points between the
+/// file-system operations of [PidFileLocking] and an injectable pid / liveness oracle.
+#[cfg(fuellabs_sway_verif)]
+pub mod verif {
+    use std::{cell::RefCell, rc::Rc};
+
+    pub struct Ctl {
+        /// Value used instead of `std::process::id()`.
+        pub pid: usize,
+        /// Called with a label immediately before each file-system operation; may block.
+        pub step: Box<dyn Fn(&'static str)>,
+        /// Replaces the `ps` liveness query.
+        pub is_active: Box<dyn Fn(usize) -> bool>,
+    }
+
+    thread_local! { static CTL: RefCell<Option<Rc<Ctl>>> = const { RefCell::new(None) }; }
+
+    /// Installs (or removes) the controller of the calling thread.
+    pub fn install(ctl: Option<Ctl>) {
+        CTL.with(|c| *c.borrow_mut() = ctl.map(Rc::new));
+    }
+
+    fn get() -> Option<Rc<Ctl>> {
+        CTL.with(|c| c.borrow().clone())
+    }
+
+    pub(super) fn step(label: &'static str) {
+        if let Some(c) = get() {
+            (c.step)(label)
+        }
+    }
+
+    pub(super) fn pid() -> Option<usize> {
+        get().map(|c| c.pid)
+    }
+
+    pub(super) fn is_active(pid: usize) -> Option<bool> {
+        get().map(|c| (c.is_active)(pid))
+    }
+}
+
+/// The pid written into / compared with lock files.
+fn current_pid() -> usize {
+    #[cfg(fuellabs_sway_verif)]
+    if let Some(pid) = verif::pid() {
+        return pid;
+    }
+    std::process::id() as usize
+}
+
 /// Very simple AdvisoryPathMutex class
 ///
 /// The goal of this struct is to signal other processes that a path is being used by another
@@ -40,6 +90,10 @@ impl PidFileLocking {
     /// Checks if the given pid is active
     #[cfg(not(target_os = "windows"))]
     fn is_pid_active(pid: usize) -> bool {
+        #[cfg(fuellabs_sway_verif)]
+        if let Some(active) = verif::is_active(pid) {
+            return active;
+        }
         // Not using sysinfo here because it has compatibility issues with fuel.nix
         // https://github.com/FuelLabs/fuel.nix/issues/64
         use std::process::Command;
@@ -77,6 +131,8 @@ impl PidFileLocking {
                 self.get_locker_pid()
             )))
         } else {
+            #[cfg(fuellabs_sway_verif)]
+            verif::step("r_unlink");
             self.remove_file()?;
             Ok(())
         }
@@ -97,15 +153,23 @@ impl PidFileLocking {
     /// Returns the PID of the owner of the current lock. If the PID is not longer active the lock
     /// file will be removed
     pub fn get_locker_pid(&self) -> Option<usize> {
+        #[cfg(fuellabs_sway_verif)]
+        verif::step("g_open");
         let fs = File::open(&self.0);
         if let Ok(mut file) = fs {
             let mut contents = String::new();
+            #[cfg(fuellabs_sway_verif)]
+            verif::step("g_read");
             file.read_to_string(&mut contents).ok();
             drop(file);
             if let Ok(pid) = contents.trim().parse::<usize>() {
+                #[cfg(fuellabs_sway_verif)]
+                verif::step("g_ps");
                 return if Self::is_pid_active(pid) {
                     Some(pid)
                 } else {
+                    #[cfg(fuellabs_sway_verif)]
+                    verif::step("g_unlink");
                     let _ = self.remove_file();
                     None
                 };
@@ -118,7 +182,7 @@ impl PidFileLocking {
     /// no lock file or the current process is the owner of the lock file
     pub fn is_locked(&self) -> bool {
         self.get_locker_pid()
-            .map(|pid| pid != (std::process::id() as usize))
+            .map(|pid| pid != current_pid())
             .unwrap_or_default()
     }
 
@@ -130,8 +194,12 @@ impl PidFileLocking {
             create_dir_all(dir)?;
         }
 
+        #[cfg(fuellabs_sway_verif)]
+        verif::step("l_create");
         let mut fs = File::create(&self.0)?;
-        fs.write_all(std::process::id().to_string().as_bytes())?;
+        #[cfg(fuellabs_sway_verif)]
+        verif::step("l_write");
+        fs.write_all(current_pid().to_string().as_bytes())?;
         fs.sync_all()?;
         fs.flush()?;
         Ok(())
@@ -141,6 +209,8 @@ impl PidFileLocking {
     /// Returns a vector of paths that were cleaned up
     pub fn cleanup_stale_files() -> io::Result<Vec<PathBuf>> {
         let lock_dir = user_forc_directory().join(".lsp-locks");
+        #[cfg(fuellabs_sway_verif)]
+        verif::step("c_list");
         let entries = read_dir(&lock_dir)?;
         let mut cleaned_paths = Vec::new();
 
@@ -149,15 +219,25 @@ impl PidFileLocking {
             let path = entry.path();
             if let Some(ext) = path.extension().and_then(|ext| ext.to_str()) {
                 if ext == "lock" {
+                    #[cfg(fuellabs_sway_verif)]
+                    verif::step("c_open");
                     if let Ok(mut file) = File::open(&path) {
                         let mut contents = String::new();
+                        #[cfg(fuellabs_sway_verif)]
+                        verif::step("c_read");
                         if file.read_to_string(&mut contents).is_ok() {
                             if let Ok(pid) = contents.trim().parse::<usize>() {
+                                #[cfg(fuellabs_sway_verif)]
+                                verif::step("c_ps");
                                 if !Self::is_pid_active(pid) {
+                                    #[cfg(fuellabs_sway_verif)]
+                                    verif::step("c_unlink");
                                     remove_file(&path)?;
                                     cleaned_paths.push(path);
                                 }
                             } else {
+                                #[cfg(fuellabs_sway_verif)]
+                                verif::step("c_unlink");
                                 remove_file(&path)?;
                                 cleaned_paths.push(path);
                             }
